@@ -252,16 +252,8 @@ def _is_param(x, k):
 
 def h3(ctx, fx, H):
     nchk = 0
-    for fn in H.sel_fns:
-        for lp in next_loops(fn):
-            it = lp.iter_ty
-            if "serde_json::map::IntoIter" in it or "serde_json::map::Iter" in it:
-                sel_path = [1]
-            elif "std::iter::Zip" in it:
-                sel_path = [0]
-            else:
-                continue
-            is_sel = lambda x, lp=lp, sel_path=sel_path: item_path(x, lp.node) == sel_path
+    if True:
+        for (fn, lp, is_sel) in selector_loops(fx, H):
             for assume in ("null", "false"):
                 nchk += 1
                 bad, nprune = selects_nothing(fx, H, fn, is_sel, assume, lp.body_entries, [lp.bb])
@@ -423,11 +415,66 @@ def h5(ctx, fx, H):
             ctx.finding("C06.H5", P, "compact-order", "the compact form is assembled as %s (expected jwt, disclosures, kb)" % seq, line=line)
 
 
-def role_preserving(ctx, fx, H, rule):
-    """In the selection walkers the issued claims and the holder's selection are walked in lock step. Every recursive call must hand the
-    callee's claims parameter something that comes from the caller's claims parameter (or from a disclosure looked up through it) and the
-    callee's selection parameter something that comes from the caller's selection parameter: a swap (both are `&[Value]` in the list
-    walker, so it type-checks) pairs selectors with the wrong elements and silently selects nothing / the wrong disclosures."""
+def selector_loops(fx, H):
+    """[(walker, loop, is_sel)]: the loops in which a walker pairs the issued claims with the holder's selection, and the recogniser of the
+    current selector value inside that loop. Three pairings are known: iterating the selection map (the selector is the entry's value),
+    zipping the two lists (the selector is the component that comes from the selection parameter), and an index loop `for i in 0..n` in
+    which both lists are indexed with the loop's own item (the selector is `selection[i]`)."""
+    roles = walker_roles(H)
+    out = []
+    for fn in H.sel_fns:
+        mine = roles.get(fn.name)
+        for lp in next_loops(fn):
+            it = lp.iter_ty
+            if "serde_json::map::IntoIter" in it or "serde_json::map::Iter" in it:
+                out.append((fn, lp, (lambda x, lp=lp: item_path(x, lp.node) == [1])))
+            elif "std::iter::Zip" in it:
+                sel_path = [0]
+                z = common._zip_of_item(V_item(lp))
+                if z is not None and mine and len(z.kids) == 2:
+                    comp = [i for i, k in enumerate(z.kids) if common.param_roots(k) & {mine["claims"], mine["selection"]} == {mine["selection"]}]
+                    if len(comp) == 1:
+                        sel_path = [comp[0]]
+                out.append((fn, lp, (lambda x, lp=lp, sel_path=sel_path: item_path(x, lp.node) == sel_path)))
+            elif "std::ops::Range<" in it and mine:
+                idxd = indexed_by_item(fn, lp)
+                if {mine["claims"], mine["selection"]} <= set(idxd):
+                    out.append((fn, lp, (lambda x, lp=lp, k=mine["selection"]: _is_indexed_param(x, lp, k))))
+    return out
+
+
+def V_item(lp):
+    """a value that is the item of the loop (for helpers that take any projection of the item)"""
+    return lp.node
+
+
+def _is_indexed_param(x, lp, k):
+    x = peel(x)
+    return x.kind == "index" and len(x.kids) == 2 and item_path(x.kids[1], lp.node) == [] and peel(x.kids[0]).kind == "param" and peel(x.kids[0]).d["idx"] == k
+
+
+def indexed_by_item(fn, lp):
+    """parameter indices of the sequences that are indexed with exactly the item of the (range) loop somewhere in the function"""
+    fv = vals(fn)
+    out = set()
+    seen = set()
+    roots = []
+    for b, t in fn.calls():
+        roots.append(fv.call_node(b))
+    for (b, subj) in common.discr_switches(fn):
+        roots.append(subj)
+    for r in roots:
+        for x in walk(r):
+            if id(x) in seen:
+                continue
+            seen.add(id(x))
+            if x.kind == "index" and len(x.kids) == 2 and item_path(x.kids[1], lp.node) == [] and peel(x.kids[0]).kind == "param":
+                out.add(peel(x.kids[0]).d["idx"])
+    return out
+
+
+def walker_roles(H):
+    """{walker name: {"claims": param idx, "selection": param idx}} for the selection walkers whose two JSON parameters can be told apart"""
     roles = {}
     for fn in H.sel_fns:
         fv = vals(fn)
@@ -463,6 +510,15 @@ def role_preserving(ctx, fx, H, rule):
             if len(cl) == 1 and len(se) == 1 and cl != se and len(jp) == 2:
                 roles[fn.name] = {"claims": list(cl)[0], "selection": list(se)[0]}
                 changed = True
+    return roles
+
+
+def role_preserving(ctx, fx, H, rule):
+    """In the selection walkers the issued claims and the holder's selection are walked in lock step. Every recursive call must hand the
+    callee's claims parameter something that comes from the caller's claims parameter (or from a disclosure looked up through it) and the
+    callee's selection parameter something that comes from the caller's selection parameter: a swap (both are `&[Value]` in the list
+    walker, so it type-checks) pairs selectors with the wrong elements and silently selects nothing / the wrong disclosures."""
+    roles = walker_roles(H)
     if len(roles) < len(H.sel_fns):
         ctx.missing(rule, "walker roles", "cannot tell the claims parameter from the selection parameter in %s" % sorted(set(f.name for f in H.sel_fns) - set(roles)))
         return
@@ -507,4 +563,31 @@ def role_preserving(ctx, fx, H, rule):
                             "address the wrong elements (e.g. when narrowing a presentation that withholds an earlier element)" % (bad[0][0], bad[0][1]), line=fn.term(lp.bb).get("line"))
             else:
                 ctx.ok(rule, fn, "positional-zip", "both sides of the positional zip are the parameters' own element sequences (no dropping / reordering adaptor)", line=fn.term(lp.bb).get("line"))
+    # the index form of the same pairing: `for i in 0..n { claims[i] .. selection[i] }`, both indexed with the loop's own item
+    for fn in H.sel_fns:
+        mine = roles[fn.name]
+        for lp in next_loops(fn):
+            if "std::ops::Range<" not in lp.iter_ty:
+                continue
+            idxd = indexed_by_item(fn, lp)
+            if not ({mine["claims"], mine["selection"]} & idxd):
+                continue
+            nz += 1
+            fv = vals(fn)
+            other = []
+            seen = set()
+            for b, t in fn.calls():
+                for x in walk(fv.call_node(b)):
+                    if id(x) in seen:
+                        continue
+                    seen.add(id(x))
+                    if x.kind == "index" and len(x.kids) == 2 and peel(x.kids[0]).kind == "param" and peel(x.kids[0]).d["idx"] in (mine["claims"], mine["selection"]) \
+                            and item_path(x.kids[1], lp.node) != [] and common.range_item(x.kids[1]) is None and const_value(x.kids[1]) is None:
+                        other.append(x)
+            ri = common.range_item(lp.node)
+            if {mine["claims"], mine["selection"]} <= idxd and not other and ri is not None and const_value(ri[0]) == 0:
+                ctx.ok(rule, fn, "positional-zip", "claims and selection are both indexed with the item of one loop over 0..n (the same position on both sides)", line=fn.term(lp.bb).get("line"))
+            else:
+                ctx.finding(rule, fn, "positional-zip", "claims and selection are paired by an index loop, but not both are indexed with the loop's own item from 0 (%s): selectors address the wrong elements"
+                            % (", ".join(vstr(o, 2) for o in other[:2]) or "one side is not indexed by the item"), line=fn.term(lp.bb).get("line"))
     ctx.floor(rule, "positional zips of claims and selection", nz, 1)
